@@ -222,4 +222,17 @@ theorem stream_link_roundtrip (h : Bytes → Nat) (tbl : Nat → Option Bytes) (
   exact decode_encode h tbl m hh a b c d e
 
 
+/-- the source's choice (regenerated fact) -/
+def copyOnSendOfFacts : Bool := decide (Receptor.Facts.send_local_copy = "local:copy")
+
+/-- **local_send_intact.** A datagram sent to a listener on the same node arrives as it was when it was sent, whatever the
+sender writes into its buffer after `WriteTo` has returned. -/
+theorem local_send_intact (sent after : Bytes) : localRead copyOnSendOfFacts sent after = sent := by
+  have : copyOnSendOfFacts = true := by decide +kernel
+  simp [localRead, this]
+
+/-- Witness: a message that shares the caller's buffer shows the reader bytes of the next send -/
+theorem C02_witness_shared_buffer : localRead false [1, 1, 1] [2, 2, 1] = [2, 2, 1] ∧ localRead true [1, 1, 1] [2, 2, 1] = [1, 1, 1] := by
+  decide
+
 end Receptor.C02
